@@ -327,6 +327,68 @@ def tag_obligations(rec, spec, stubs, unit):
     return rec
 
 
+def _refute_without_loop_contract(uname, unit, result, tier, jobs, only):
+    """A loop contract that no longer fits the loop it was written for (the loop was rewritten: the contract names a variable that is gone)
+    makes the whole translation unit unreadable for goto-cc -- every function of the unit is then undecided.  For a function that declares
+    `refute_unwind: K` the unit is translated once more WITHOUT that function's loop contracts; the other functions are verified as usual, and the
+    function itself is checked against its unchanged pre/postconditions with its loops unwound K times.  That is a bounded REFUTATION only: a failed
+    obligation other than an unwinding assertion is a real counterexample to the contract (unwinding explores a subset of the executions) and is
+    reported as failed; anything else stays undecided -- a bounded pass is never counted as a proof."""
+    blocked = [r for r in result['functions'] if r['status'] == 'undecided' and r['reason'].startswith('goto-cc failed')]
+    if not blocked:
+        return
+    err = blocked[0]['reason']
+    hit = [(q, sp) for q, sp in unit['functions'].items() if sp.get('loops') and sp.get('refute_unwind') and ("In function '%s'" % sp.get('_cname')) in err]
+    if not hit:
+        return
+    q0 = hit[0][0]
+    unit2 = load_unit(uname)
+    unit2['functions'][q0]['loops'] = {}
+    try:
+        t2, text2 = translate(unit2)
+    except (cxx2c.Unsupported, astdump.ExtractionError):
+        return
+    stubs = unit2.get('stubs', {})
+    cfile2 = os.path.join(GEN, uname + '.noloop.c')
+    harn = ''
+    for qual, spec in unit2['functions'].items():
+        if spec.get('plain_harness'):
+            harn += 'void hp_%s(void) {\n%s\n  __CPROVER_assert(0, "VERIF_CANARY end of harness reachable");\n}\n' % (spec['_cname'], spec['plain_harness'])
+        else:
+            harn += harness_for(t2, spec['_cname'], spec)
+    with open(cfile2, 'w') as fh:
+        fh.write(text2 + '\n' + harn)
+    todo = [(q, sp) for q, sp in unit2['functions'].items() if sp.get('prove', True) and (only is None or q in only or sp['_cname'] in only)]
+    proved_here = [sp['_cname'] for q, sp in unit2['functions'].items() if not sp.get('inline_in_callers')]
+    k = unit2['functions'][q0]['refute_unwind']
+    recs = []
+    with cf.ThreadPoolExecutor(max_workers=jobs) as ex:
+        futs = []
+        for q, sp in todo:
+            extra = list(stubs.keys()) + [c for c in proved_here if c != sp['_cname'] and sp.get('replace_unit_callees', True)]
+            if q == q0:
+                sp = dict(sp, no_loop_contracts=True, unwind=k)
+            futs.append(ex.submit(prove_function, uname + '.noloop', t2, cfile2, q, sp, tier, extra))
+        for (q, sp), f in zip(todo, futs):
+            rec = f.result()
+            tag_obligations(rec, sp, stubs, unit2)
+            rec['span'] = t2.spans.get(sp['_cname'])
+            if q == q0:
+                why = ('the loop contract of %s no longer fits its loop (%s); checked against the unchanged pre/postconditions with loops unwound %d times (bounded refutation)'
+                       % (q0, err.split('error:')[-1].strip().splitlines()[0][:160], k))
+                real = [o for o in rec['obligations'] if o['status'] == 'FAILURE' and 'unwinding assertion' not in o['description']]
+                rec['obligations'] = [o for o in rec['obligations'] if 'unwinding assertion' not in o['description']]
+                rec['bounded_refutation'] = k
+                if rec['status'] == 'failed' and real:
+                    rec['reason'] = why
+                else:
+                    rec['status'] = 'undecided'
+                    rec['reason'] = why + ': no violation found, which decides nothing'
+            recs.append(rec)
+    result['functions'] = recs
+    result['cfile'] = cfile2
+
+
 def prove_unit(uname, tier='quick', jobs=8, only=None):
     os.makedirs(GEN, exist_ok=True)
     result = {'unit': uname, 'status': 'undecided', 'functions': [], 'reason': '', 'assumptions': [], 'spans': {}}
@@ -366,6 +428,7 @@ def prove_unit(uname, tier='quick', jobs=8, only=None):
             tag_obligations(rec, s, stubs, unit)
             rec['span'] = t.spans.get(s['_cname'])
             result['functions'].append(rec)
+    _refute_without_loop_contract(uname, unit, result, tier, jobs, only)
     sts = [r['status'] for r in result['functions']]
     if any(s == 'undecided' for s in sts):
         result['status'] = 'undecided'
